@@ -181,7 +181,7 @@ PROPS = {
     },
     "C09": {
         "proofs": ["ZlProofs.Props.C09", "ZlProofs.Props.Bodies"],  # Bodies: no_signature_field / all_rules_fields_allowed
-        "corr": ["der", "framework", "bodies"],  # runAll_congr is about the framework model: results carry what the stages return, nothing derived from the object
+        "corr": ["der", "framework", "bodies", "cli"],  # cli: the tool reads the same bytes the library parses — DER files whose signature ends in bytes a text reader would strip  # runAll_congr is about the framework model: results carry what the stages return, nothing derived from the object
         "search": ["c09"],
         "trusted_base": TB_COMMON,
         "assumptions": ["A-SELF: the parser sets SelfSigned only when issuer bytes = subject bytes (checked on every object)",
@@ -331,7 +331,7 @@ CLAIMS = {
     },
     "C09": {
         "proofs": ["ZlProofs.Props.C09", "ZlProofs.Props.Bodies"],  # Bodies: no_signature_field / all_rules_fields_allowed
-        "corr": ["der", "framework", "bodies"],  # runAll_congr is about the framework model: results carry what the stages return, nothing derived from the object
+        "corr": ["der", "framework", "bodies", "cli"],  # cli: the tool reads the same bytes the library parses — DER files whose signature ends in bytes a text reader would strip  # runAll_congr is about the framework model: results carry what the stages return, nothing derived from the object
         "search": ["c09"],
         "trusted_base": TB_COMMON,
         "assumptions": ["A-SELF: the parser sets SelfSigned only when issuer bytes = subject bytes (checked on every object)",
